@@ -115,7 +115,7 @@ TraceNext ==
                    /\ bad5' = (IF ok5 \/ ~good \/ tainted' THEN bad5 ELSE Append(bad5, l + 1))
                    /\ bad6' = (IF ok6 \/ ~good \/ tainted' THEN bad6 ELSE Append(bad6, l + 1))
                    /\ f2' = (IF (ok5 /\ ok6) \/ ~good \/ ~tainted' THEN f2 ELSE Append(f2, l + 1))
-              /\ drift' = (IF tainted' \/ (ObsOf(r).closes = MObs(r).closes /\ ObsOf(r).par = MObs(r).par
+              /\ drift' = (IF tainted' \/ r.op = "drop2" \/ (ObsOf(r).closes = MObs(r).closes /\ ObsOf(r).par = MObs(r).par
                                          /\ ObsOf(r).got = MObs(r).got /\ ObsOf(r).chain = MObs(r).chain)
                            THEN drift ELSE Append(drift, l + 1))
 TraceSpec == TraceInit /\ [][TraceNext]_tvars
